@@ -417,7 +417,59 @@ func checkC10(w *World) {
 			}
 		})
 	})
-	w.floor(P, "R10.5", 4)
+	// constructor results stored into an existing slot of a list (replacement by prefix)
+	w.forAllFuncs("store", func(fn *ssa.Function) {
+		allInstrs(fn, func(in ssa.Instruction) {
+			st, ok := in.(*ssa.Store)
+			if !ok {
+				return
+			}
+			ia, ok := st.Addr.(*ssa.IndexAddr)
+			if !ok {
+				return
+			}
+			ld, ok := ia.X.(*ssa.UnOp)
+			if !ok {
+				return
+			}
+			fa, ok := ld.X.(*ssa.FieldAddr)
+			if !ok {
+				return
+			}
+			role := sf.roleOf(fa.Field)
+			if role != "namespaces" && role != "attributes" && role != "children" {
+				return
+			}
+			c, ok := stripConv(st.Val).(*ssa.Call)
+			if !ok {
+				return
+			}
+			ci, isCtor := sf.Ctors[staticCallee(c)]
+			if !isCtor {
+				return
+			}
+			n5++
+			okParent := c.Call.Args[ci.ParentParam] == fa.X
+			// position: that of the cursor in the same slot
+			okPos := false
+			posArg := c.Call.Args[ci.PosParam]
+			if pl, ok := posArg.(*ssa.UnOp); ok {
+				if pfa, ok := pl.X.(*ssa.FieldAddr); ok && sf.roleOf(pfa.Field) == "pos" {
+					// the object whose pos is read is the element at the same index of the same list
+					if sliceContains(pfa.X, func(v ssa.Value) bool {
+						if ia2, ok := v.(*ssa.IndexAddr); ok && ia2.Index == ia.Index {
+							return true
+						}
+						return false
+					}) {
+						okPos = true
+					}
+				}
+			}
+			w.check(P, "R10.5", fmt.Sprintf("replacement of a slot of the %s list in %s", role, fn.Name()), c.Pos(), okParent && okPos, fmt.Sprintf("the replacing cursor is constructed with the list owner as parent: %v; with the position of the cursor it replaces (so the list stays in ascending Pos() order): %v", okParent, okPos))
+		})
+	})
+	w.floor(P, "R10.5", 5)
 
 	// R10.6 distinct fields
 	seen := map[int]string{}
